@@ -115,7 +115,7 @@ def gen_abf(r, cid, big=False):
         if r.random() < 0.5:
             # at the very end one walker is given an unformatted state cut inside the "last_samples" keyword
             events.append(["R", r.randrange(n), "binary", True])
-    return {"kind": "abf", "id": cid, "mode": mode, "script": mode == "script", "oldfmt": mode == "oldfmt", "output": output, "integrate": integrate, "smp": smp, "n": n, "nd": nd, "nbins": nbins, "freq": F, "apply": r.random() < 0.7,
+    return {"kind": "abf", "id": cid, "mode": mode, "script": mode == "script", "oldfmt": mode == "oldfmt", "output": output, "hist": output and r.random() < 0.4, "integrate": integrate, "smp": smp, "n": n, "nd": nd, "nbins": nbins, "freq": F, "apply": r.random() < 0.7,
             "full": r.choice([1, 2, 200]), "events": events}
 
 
@@ -1041,7 +1041,7 @@ def gen_czar(r, cid, big=False):
     if r.random() < 0.5:
         for _ in range(r.randint(1, 2)):
             restart_at[str(r.randint(1, T - 2))] = [r.choice(["text", "binary"]) for _ in range(n)]
-    return {"kind": "czar", "id": cid, "n": n, "nbins": nb, "freq": freq, "script": script, "twice": r.random() < 0.4, "restart_at": restart_at, "steps": steps, "gather_at": gather_at}
+    return {"kind": "czar", "id": cid, "n": n, "nbins": nb, "freq": freq, "script": script, "hist": r.random() < 0.3, "twice": r.random() < 0.4, "restart_at": restart_at, "steps": steps, "gather_at": gather_at}
 
 
 def check_czar(run, exe, model, cases, scratch):
@@ -1172,11 +1172,15 @@ def gen_opes(r, cid, big=False):
     pace = r.choice([1, 2, 3])
     T = r.randint(3, 9)
     steps = [[V.dyadic(r, -8, 8, bits=4) for _ in range(n)] for _ in range(T)]
-    variant = r.choice(["plain", "plain", "compress", "nlist", "adaptive"])
-    if variant != "plain":
+    variant = r.choice(["plain", "plain", "compress", "nlist", "adaptive", "long", "explore"])
+    if variant == "long":
+        # so many kernels that the normalisation is updated from the new kernels only (the other branch of update_opes)
+        pace = 1
+        steps = [[V.dyadic(r, -8, 8, bits=4) for _ in range(n)] for _ in range(max(6, 30 // n) + r.randint(0, 3))]
+    elif variant != "plain":
         # close positions, so that kernels are merged / neighbour lists differ / the adaptive width matters
         steps = [[V.dyadic(r, -1, 1, bits=4) for _ in range(n)] for _ in range(T + 4)]
-    return {"kind": "opes", "id": cid, "n": n, "pace": pace, "variant": variant, "smp": r.random() < 0.4, "steps": steps}
+    return {"kind": "opes", "id": cid, "n": n, "pace": pace, "variant": variant, "nlreset": r.random() < 0.5, "smp": r.random() < 0.4, "steps": steps}
 
 
 def check_opes(run, exe, model, cases, scratch):
@@ -1215,7 +1219,7 @@ def check_opes(run, exe, model, cases, scratch):
                               % (t, norm), {"kind": "opes", "case": c, "step": t})
                 break
             run.dist("opes:%s" % c.get("variant", "plain")) if t == 0 else None
-            if c.get("variant", "plain") != "plain":
+            if c.get("variant", "plain") not in ("plain", "long"):
                 # kernel compression, neighbour lists, adaptive width: what every walker holds is a function of the same
                 # gathered data, so it must still be the same bit for bit (checked above); the rest needs the plain kernels
                 continue
